@@ -19,9 +19,28 @@ Proof.
   destruct (u_scale u), (u_scale v); reflexivity.
 Qed.
 
-Lemma first_answer_eq cs q to : first_answer accept_not_none cs q to = try_convs cs q to.
+(* converter.py: the translated Converter.__call__ / TableConverter._get_factor
+   are the model's table_conv whenever the unit belongs to the quantity's type
+   (the only way equiv_amount calls a converter); another type's unit raises
+   IncompatibleUnitsError *)
+Theorem table_call_impl_eq t q to : same_cls (q_unit q) to = true ->
+  table_call_impl t q to = Ok (table_conv t q to).
 Proof.
-  induction cs as [|t r IH]; cbn [first_answer try_convs]; [reflexivity|].
+  intros C. unfold table_call_impl, table_factor_impl, table_conv. rewrite C.
+  destruct (same_unit (q_unit q) to); [reflexivity|].
+  destruct (table_get t (u_id (q_unit q)) (u_id to)) as [[f o]|]; [reflexivity|].
+  destruct (table_get t (u_id to) (u_id (q_unit q))) as [[f o]|]; reflexivity.
+Qed.
+
+Theorem table_call_impl_other_type t q to : same_cls (q_unit q) to = false ->
+  same_unit (q_unit q) to = false -> table_call_impl t q to = Err EIncompatibleUnits.
+Proof. intros C U. unfold table_call_impl. rewrite C, U. reflexivity. Qed.
+
+Lemma first_answer_eq cs q to : same_cls (q_unit q) to = true ->
+  first_answer accept_not_none cs q to = Ok (try_convs cs q to).
+Proof.
+  intros C. induction cs as [|t r IH]; cbn [first_answer try_convs]; [reflexivity|].
+  rewrite (table_call_impl_eq t q to C). cbn [bind].
   destruct (table_conv t q to); cbn [accept_not_none]; [reflexivity | exact IH].
 Qed.
 
@@ -29,9 +48,10 @@ Theorem equiv_amount_impl_eq ce q to : equiv_amount_impl ce q to = equiv_amount 
 Proof.
   unfold equiv_amount_impl, equiv_amount. rewrite unit_eq_impl_eq, get_factor_impl_eq.
   destruct (unit_eq (q_unit q) to) as [[|]|e]; cbn [bind]; try reflexivity.
-  destruct (get_factor (q_unit q) to) as [[f|]|e]; try reflexivity.
-  all: try (rewrite first_answer_eq; destruct (try_convs _ q to); reflexivity).
-  all: destruct e; reflexivity.
+  destruct (get_factor (q_unit q) to) as [[f|]|e] eqn:G; try reflexivity.
+  assert (C : same_cls (q_unit q) to = true).
+  { unfold get_factor in G. destruct (same_cls (q_unit q) to); [reflexivity|discriminate]. }
+  rewrite (first_answer_eq _ q to C). cbn [bind]. destruct (try_convs _ q to); reflexivity.
 Qed.
 
 Theorem convert_impl_eq ce dm q to : convert_impl ce dm q to = convert ce dm q to.
